@@ -175,6 +175,7 @@ def gen_config(ch, bias=None):
     cfg['variant'] = code
     maxp = PREDEFINED[code][2] if code in PREDEFINED else {
         'XHE': 9, 'X5S': 8, 'X5D': 6, 'XGRK': 9, 'XKUHN': 2, 'XA5': 6, 'XO5': 6, 'XSHL': 7, 'XDM': 6}[code]
+    maxp = bias.get('max_players_by_variant', {}).get(code, maxp)
     maxp = min(maxp, bias.get('max_players', 9))
     minp = min(bias.get('min_players', 2), maxp)
     cfg['n'] = n = minp + ch.pick('cfg.n', maxp - minp + 1)
@@ -261,6 +262,10 @@ def gen_config(ch, bias=None):
     cfg['divmod'] = dm
     if code in CUSTOM_CODES:
         cfg['custom'] = gen_custom(ch, code, bias)
+    if bias.get('ctor_variety') and code in PREDEFINED:
+        cfg['ctor'] = ch.choice('cfg.ctor', ('call', 'call', 'create_pos', 'create_kw', 'call_kw'))
+    if bias.get('big_mults') and code in PREDEFINED and PREDEFINED[code][1] != 'minbet':
+        cfg['big_mult'] = ch.choice('cfg.big_mult', bias['big_mults'])
     return cfg
 
 
@@ -362,13 +367,27 @@ def build(cfg, autos_mask=None):
         clsname, kind, _, _ = PREDEFINED[code]
         cls = getattr(_pk, clsname)
         bb = conv(cfg, cfg['bb'])
-        big = conv(cfg, cfg['bb'] * 2)
+        big = conv(cfg, cfg['bb'] * cfg.get('big_mult', 2))
         if kind == 'minbet':
-            game = cls(autos, cfg['ats'], antes, blinds, conv(cfg, cfg.get('min_bet', cfg['bb'])), **kw)
+            names = ('automations', 'ante_trimming_status', 'raw_antes', 'raw_blinds_or_straddles', 'min_bet')
+            args = (autos, cfg['ats'], antes, blinds, conv(cfg, cfg.get('min_bet', cfg['bb'])))
         elif kind == 'smallbig':
-            game = cls(autos, cfg['ats'], antes, blinds, bb, big, **kw)
+            names = ('automations', 'ante_trimming_status', 'raw_antes', 'raw_blinds_or_straddles', 'small_bet', 'big_bet')
+            args = (autos, cfg['ats'], antes, blinds, bb, big)
         else:
-            game = cls(autos, cfg['ats'], antes, conv(cfg, cfg['bring_in']), bb, big, **kw)
+            names = ('automations', 'ante_trimming_status', 'raw_antes', 'bring_in', 'small_bet', 'big_bet')
+            args = (autos, cfg['ats'], antes, conv(cfg, cfg['bring_in']), bb, big)
+        ctor = cfg.get('ctor', 'call')
+        if ctor != 'call' and 'create_state' in vars(cls):
+            # the documented one-step construction, positionally or with every parameter passed by keyword
+            if ctor == 'create_pos':
+                return None, cls.create_state(*args, stacks, n, **kw)
+            kwargs = dict(zip(names, args), raw_starting_stacks=stacks, player_count=n, **kw)
+            return None, cls.create_state(**kwargs)
+        if ctor == 'call_kw':
+            game = cls(**dict(zip(names, args)), **kw)
+        else:
+            game = cls(*args, **kw)
         return game, game(stacks, n)
     deck, hand_types, streets, structure = custom_spec(cfg, autos)
     state = State(autos, deck, hand_types, streets, structure, cfg['ats'], antes, blinds,
